@@ -36,6 +36,7 @@ type Prog struct {
 	fileOf      map[*ast.File]*packages.Package
 	cg          *CallGraph
 	domCache    map[*ssa.Function]*domInfo
+	helperSites map[*ssa.Function][]*ssa.Call
 }
 
 // short strips the module prefix from a qualified name.
